@@ -194,7 +194,19 @@ def call_builtin(I, live, args, kwargs, node=None):
     if ov is None:
         ov = I.overrides.get(getattr(live, "__qualname__", None) or getattr(live, "__name__", ""))
     if ov is not None:
-        r = ov(I, args, kwargs)
+        from .interp import PyExc as _PyExc
+
+        try:
+            r = ov(I, args, kwargs)
+        except _PyExc as e:
+            from .native import PyExcMarker
+
+            try:
+                native_exc = e.cls(e.msg)
+            except Exception:
+                native_exc = RuntimeError(e.msg)
+            I.override_log.append((qn, PyExcMarker(native_exc)))
+            raise
         I.override_log.append((qn, r))
         return r
     if live is sys.exit:
